@@ -16,6 +16,10 @@ CHECKS = {
     'C16': ('exploration', '(a) raising calls: same exception object, one evaluation, state unchanged, and a twin run without the raising calls is indistinguishable afterwards; (b) safe decorators with hostile arguments under every keymap degrade to plain evaluation', 'twin equivalence observed through public state; hostile objects limited to unhashable / unencodable ones (raising __eq__ is outside the statement)', PBT + 'metamorphic twin-run oracle + differential oracle'),
     'C18': ('exploration', 'key() equals the storage key of every miss, lookup() agrees with the resident set, neither touches state, and a twin run without introspection ops is indistinguishable; ignore/tol/deep settings included', 'residency for archives used directly as the cache is the archive own membership test', PBT + 'metamorphic twin-run oracle + per-step predicates'),
     'C20': ('exploration', 'dill round trip of the decorated function: equal contents/info/config, then continuation on original vs clone (persistent storage rewound in between) compared step by step; independence and shared-store visibility', 'sqlite-backed caches do not pickle and are excluded', PBT + 'round-trip + lock-step differential oracle'),
+    'C09': ('exploration', 'pairs of call spellings that Python binds identically (inspect.signature.bind) must give equal keys and one evaluation: every keymap class x flat x typed x sentinel, paths f.key / keygen / _keygen / real call, functions, methods and partials', 'identical argument objects in both spellings; positional-only parameters not generated', 'property-based testing (Hypothesis): generated signatures, bindings and spelling pairs; metamorphic oracle (bind-equal => key-equal) with Python own binding as the reference'),
+    'C10': ('exploration', 'pairs of calls whose bound arguments differ must give different keys under every information-preserving keymap and evaluate separately; typed twins (1/1.0/True) separated when typed=True; hurtful string alphabet', 'lossy keymaps (hash(None), flat without sentinel on *args signatures) excluded by the property wording; D3 listed as open known finding', 'property-based testing (Hypothesis): generated signatures and differing binding pairs; metamorphic oracle (bind-different => key-different) + differential call oracle'),
+    'C11': ('exploration', 'independent selector model for ignore specs (names, indices, *, **, self): pairs differing only in ignored positions share a key and one evaluation; pairs differing elsewhere behave exactly as without ignore', 'index selectors not mixed with an ignored instance (shift direction unspecified)', 'property-based testing (Hypothesis): generated signatures x ignore specs x call pairs; reference selector model + metamorphic comparison with ignore=()'),
+    'C12': ('exploration', 'key under tol/deep equals key without tol on independently rounded arguments; the function receives the original objects; valid calls never raise; standalone rounding decorators against the same reference rounder', 'tol in [-12, 12]; nan excluded; built-in round is the scalar primitive on both sides', 'property-based testing (Hypothesis): generated nested argument structures and boundary-straddling pairs; reference-rounder differential oracle'),
     'C05': ('exploration',
             'generated histories over all 12 decorator classes x maxsize spellings (positional/keyword, 0, None, 1..6) x purge x 18 backends; per-call size predicate taken from the property statement; finds violations, cannot prove absence',
             'sizes observed via len(f.__cache__()) and f.info().size; bounded history length (<=60 ops) and pool size (<=8 keys)',
